@@ -78,7 +78,10 @@ Shapes(ns, kinds, mx, flags) == UNION {ShapesN(n, kinds, mx, flags) : n \in ns}
 HasOpt(s) == \E i \in 1..Len(s.g) : s.g[i].kind = "opt"
 Ld(P) == [patch |-> P, fail |-> "none", at |-> 0, thr |-> 1]
 Graph(s, op, rm, mk, sn, loads, par) ==
-  [t |-> "graph", g |-> s.g, tp |-> s.tp, op |-> op, remote |-> rm, marker |-> mk, seen |-> sn, loads |-> loads, par |-> par]
+  [t |-> "graph", g |-> s.g, tp |-> s.tp, op |-> op, remote |-> rm, marker |-> mk, seen |-> sn, loads |-> loads, par |-> par,
+   churn |-> FALSE]
+\* the same scenario in a process that created, remote-pickled and dropped short-lived plain classes before
+Churned(S) == {[x EXCEPT !.churn = TRUE] : x \in S}
 
 \* ---- patch dictionaries (leaf paths) derived from the graph ----
 Bare(s) == Graph(s, "rp", TRUE, FALSE, FALSE, <<>>, FALSE)
@@ -150,13 +153,15 @@ S_five(u)    == Shapes({5}, {"opt", "cont"}, 0, FALSE)              \* 5-node tr
 ScnSet(name) ==
   CASE name = "C13_quick"    -> UNION {Cls(3), Leaf, C13Graphs(S_plain3(0), UNION {S_noflag3(0), S_opt2(0), FalsyOf(S_opt2(0))}, S_noflag3(0))}
     [] name = "C13_thorough" -> UNION {Cls(4), Leaf, C13Graphs(S_plain4(0), UNION {S_small(0), S_fourx(0), FalsyOf(S_noflag3(0))}, UNION {S_small(0), S_fourx(0)})}
-    [] name = "C14_quick"    -> UNION {C14Of(UNION {S_small(0), S_four(0), FalsyOf(S_tree3(0))}, BOOLEAN), C14Seq(S_opt2(0), 2, BOOLEAN), C14Par(S_opt2(0), BOOLEAN)}
+    [] name = "C14_quick"    -> UNION {C14Of(UNION {S_small(0), S_four(0), FalsyOf(S_tree3(0))}, BOOLEAN), C14Seq(S_opt2(0), 2, BOOLEAN), C14Par(S_opt2(0), BOOLEAN),
+                                       Churned(C14Of(S_opt2(0), BOOLEAN))}
     [] name = "C14_thorough" -> UNION {C14Of(UNION {S_three2(0), S_fourf(0), S_five(0), FalsyOf(UNION {S_noflag3(0), S_four(0)})}, BOOLEAN),
-                                       C14Seq(UNION {S_noflag3(0), S_opt2(0)}, 4, BOOLEAN), C14Par(UNION {S_noflag3(0), S_opt2(0)}, BOOLEAN)}
-    [] name = "C15_quick"    -> UNION {C15P(S_small(0), TRUE), C15P(S_four(0), FALSE), C15Seq(S_opt2(0), 2)}
+                                       C14Seq(UNION {S_noflag3(0), S_opt2(0)}, 4, BOOLEAN), C14Par(UNION {S_noflag3(0), S_opt2(0)}, BOOLEAN),
+                                       Churned(C14Of(UNION {S_noflag3(0), S_opt2(0)}, BOOLEAN))}
+    [] name = "C15_quick"    -> UNION {C15P(S_small(0), FALSE), C15P(S_noflag3(0), TRUE), C15P(S_four(0), FALSE), C15Seq(S_opt2(0), 2)}
     [] name = "C15_thorough" -> UNION {C15P(UNION {S_three2(0), S_fourx(0)}, TRUE), C15Seq(S_noflag3(0), 4), C15Seq(S_opt2(0), 3), C15Seq3(S_opt2(0), 2)}
     [] name = "tiny"         -> C14Of(S_opt2(0), {FALSE})
-    [] name = "wit"          -> UNION {Cls(2), {x \in Leaf : x.wrap = "bare"}, C13Graphs({}, UNION {S_opt2(0), FalsyOf(S_opt2(0))}, {}), C15Seq(S_opt2(0), 1), C14Of(FalsyOf(S_opt2(0)), {FALSE}),
+    [] name = "wit"          -> UNION {Cls(2), {x \in Leaf : x.wrap = "bare"}, C13Graphs({}, UNION {S_opt2(0), FalsyOf(S_opt2(0))}, {}), C15Seq(S_opt2(0), 1), C14Of(FalsyOf(S_opt2(0)), {FALSE}), Churned(C14Of(S_opt2(0), BOOLEAN)),
                                        C13Graphs(Shapes(1..2, {"plain", "cont"}, 0, FALSE), {}, {}), C15P(Shapes({3}, {"opt"}, 0, FALSE), FALSE)}
     [] name = "par"          -> UNION {C13Graphs(Shapes(1..2, {"plain", "cont"}, 0, FALSE), {}, {}), C14Par(S_opt2(0), {FALSE}), C15Seq(S_opt2(0), 1)}
     [] name = "env"          -> Rng(JsonDeserialize(IOEnv.SCN_FILE))     \* hand-picked scenarios (replays, smoke tests)
